@@ -201,9 +201,11 @@ def across_upgrade(fl: int, n0: int, n1: int, n2: int, n3: int, n4: int, pending
     return verdict(untraced(_upgrade_scenario, fl, n0, n1, n2, n3, n4, pending, late, outcome, two, c0, c1, 0))
 
 
-def _single_transport(fl, ws, n_a, n_b, n_c, overlap):
-    """Polling-only or WebSocket-only session: sends interleaved with reads, optional overlapping second poll."""
-    sut = mk(fl, async_handlers=False)
+def _single_transport(fl, ws, n_a, n_b, n_c, overlap, small=False):
+    """Polling-only or WebSocket-only session: sends interleaved with reads, optional overlapping second poll.
+    ``small``: the server is configured with a tiny max_http_buffer_size (an INBOUND limit, announced as maxPayload): the
+    backlog between two reads exceeds it; outbound delivery must be unaffected."""
+    sut = mk(fl, async_handlers=False, **({'max_http_buffer_size': 40} if small else {}))
     try:
         r = sut.open('websocket' if ws else 'polling')
         sut.settle()
@@ -211,7 +213,12 @@ def _single_transport(fl, ws, n_a, n_b, n_c, overlap):
         st = dict(flavour=sut.flavour, transport='websocket' if ws else 'polling')
         if ws:
             A.send(n_a)
+            # ``overlap`` on a WebSocket session: back-pressure - the client stops reading while the n_b sends are made (the
+            # server's write of the next frame does not complete) and resumes afterwards
+            r.peer.paused = bool(overlap)
             A.send(n_b)
+            r.peer.paused = False
+            sut.settle()
             A.send(n_c)
             A.take_frames(r.peer, 1)
             if sut.transport(A.sid) != 'websocket':
@@ -261,12 +268,12 @@ def _single_transport(fl, ws, n_a, n_b, n_c, overlap):
 
 
 @cond(quick=dict(N=20, timeout=170, parts=dict(FL=[0, 1])), thorough=dict(N=40, timeout=900, parts=dict(FL=[0, 1])))
-def single_transport(fl: int, ws: bool, n_a: int, n_b: int, n_c: int, overlap: bool) -> str:
+def single_transport(fl: int, ws: bool, n_a: int, n_b: int, n_c: int, overlap: bool, small: bool) -> str:
     """
-    pre: fl == P.FL and 0 <= n_a <= P.N and 0 <= n_b <= 3 and 0 <= n_c <= 2 and (n_a <= 3 or n_a >= 15) and (not ws or not overlap)
+    pre: fl == P.FL and 0 <= n_a <= P.N and 0 <= n_b <= 3 and 0 <= n_c <= 2 and (n_a <= 3 or n_a >= 15)
     post: _ == ''
     """
-    return verdict(untraced(_single_transport, fl, ws, n_a, n_b, n_c, overlap))
+    return verdict(untraced(_single_transport, fl, ws, n_a, n_b, n_c, overlap, small))
 
 
 from vf.validate.stubs import ALL as VALIDATE  # noqa: E402  (stub-vs-real conformance, run before the obligations)
